@@ -210,4 +210,18 @@ CLAIMS["C16"] = {
     "design_ref": "DESIGN.md §4 C16",
 }
 
+CLAIMS["C19"] = {
+    "technique": "delegation / decision-table rules and a taint rule over enumerated MIR paths; constant-table check",
+    "text": "Decides the structural clauses: the owned name's hash is exactly the borrowed view's hash (same write sequence for any Hasher) "
+            "and as_var / Borrow return the view of the same string (R19.1); eq / cmp take the interned fast path only for Static x Static "
+            "and otherwise delegate to VarName (R19.2); VarName::eq is eq_ignore_ascii_case, cmp folds both sides with to_ascii_uppercase, "
+            "and every buffer handed to Hasher::write was upper-cased after input bytes were last copied into it (R19.3); the interned "
+            "string table is total, all [A-Z0-9_], injective and equal to the variant names, and interned names are ordered by their "
+            "strings (R19.4); normalising constructors reach construction only through from_compact, which folds before parsing (R19.5); "
+            "header mapping uses \"HTTP_\", '-' and '_' (R19.6). Does NOT decide prefix-freeness of the 16-byte chunked hashing nor "
+            "totality/antisymmetry of the order as computed facts.",
+    "note": "strum's generated FromStr (phf map) is trusted to invert the generated Into<&'static str> table.",
+    "design_ref": "DESIGN.md §4 C19",
+}
+
 PENDING_REASON = "rules for this property are not built yet (build in progress; DESIGN.md §7 gives the order)"
